@@ -1554,6 +1554,8 @@ def floor_plans(base_seed, tier='quick'):
     for j, kind in enumerate(['model', 'grid', 'cli', 'grid']):
         plans.append(big_plan(base_seed * 1000003 + 960000 + j, tier, kind, floor=True))
     plans.append(big_plan(base_seed * 1000003 + 960009, tier, 'grid', floor=True, huge=True))
+    if tier != 'quick':
+        plans.append(big_plan(base_seed * 1000003 + 960010, tier, 'model', floor=True, huge=True))
     plans += sibling_floor_plans(base_seed, tier, reps=2 if tier == 'quick' else 6)
     return plans
 
@@ -1796,9 +1798,9 @@ def big_plan(run_seed, tier='quick', kind=None, floor=False, huge=False):
         far_big2 = [[0, 1, 181], [0, 1, 361], 100.0, 1000.0]    # 65341 directions
     tasks = []
     if kind == 'model':
-        m = big_model(rng, at_least=340 if floor else 0)
+        m = big_model(rng, at_least=(1040 if huge else 520) if floor else 0)
         f0 = round(150.0 / m.length, 3)
-        pool = [f0, round(f0 * 1.03, 3)]
+        pool = [f0, round(f0 * rng.choice([1.004, 1.03]), 3)]
         ops = [['COMPUTE'], ['OBS_NUM'], ['SET_F', 1], ['COMPUTE'], ['FAR', 0], ['OBS_NUM'],
                ['OBS_REPORT', ['far-field']]]
         if floor:
@@ -1826,7 +1828,7 @@ def big_plan(run_seed, tier='quick', kind=None, floor=False, huge=False):
                           npulses=m.min_pulses() + 2 * len(m.geo)))
         sched = [0] * len(ops)
     else:
-        m = big_model(rng, at_least=340 if floor else 0) if (floor or rng.random() < 0.5) else gen_model(rng)
+        m = big_model(rng, at_least=520 if floor else 0) if (floor or rng.random() < 0.5) else gen_model(rng)
         f0 = round(150.0 / max(m.length, 1.0), 3)
         grid = ['--theta=0,5,37', '--phi=0,5,73'] if 'big_model' not in m.features or rng.random() < 0.3 \
             else ['--theta=0,30,3', '--phi=0,90,2']
@@ -1836,7 +1838,8 @@ def big_plan(run_seed, tier='quick', kind=None, floor=False, huge=False):
         else:
             sib = (fuzz_variant if rng.random() < 0.6 else variant_model)(rng, m)
         other = ['-f', repr(f0)] + sib.argv() + grid + ['--output-cmdline', 'big.txt']
-        ops = [['RUN', base], ['RUN', other], ['SWEEP', base, round(f0 * 0.02, 4), 2, 0], ['RUN', other], ['RUN', base]]
+        ops = [['RUN', base], ['RUN', other], ['SWEEP', base, round(f0 * rng.choice([0.004, 0.02]), 4), 2, 0],
+               ['RUN', other], ['RUN', base]]
         tasks.append(dict(kind='cli', ops=[_copy_op(o) for o in ops], template=m.template, env=m.env,
                           features=sorted(set(m.features + ['big_cli'])), probes=['big_cli'],
                           npulses=m.min_pulses() + 2 * len(m.geo), pool=[f0]))
